@@ -1,0 +1,8 @@
+//go:build !verif
+
+package datalog
+
+// simYield is a no-op unless the package is built with the "verif" tag, in
+// which case a deterministic simulator can take over the scheduling of the
+// goroutines started by the engine. See simhook_verif.go.
+func simYield(string) {}
